@@ -16,8 +16,8 @@ NA = {
 
 CLAIMED = {
  "C20": dict(engine="conc", cat="exploration", ref="§5.5, §6 C20",
-   technique="deterministic simulation of N caller goroutines: mode D parks workers between operations and at pool-tenancy hooks (Get / before Put / after Put) inside Serialize/Deserialize under a seeded scheduler in one synctest bubble; mode R releases seeded sets of operations together in a -race build",
-   text="Mode D decides 'each goroutine gets exactly the results it would get alone / pools never mix data' deterministically at operation and pool-tenancy granularity (a worker is suspended while it holds or has just returned a pooled codec while others run through the same pool); mode R decides 'free of data races' with the race detector over seeded sets of overlapping operations. Every operation's result is compared with the same program run alone and with the reference model.",
+   technique="deterministic simulation of N caller goroutines: mode D parks workers between operations and at pool-tenancy hooks (Get / before Put / after Put) inside Serialize/Deserialize under a seeded scheduler in one synctest bubble; mode R releases seeded sets of operations together in a -race build (with traversal and codec storms); a goroutine blocked on something outside the simulation is resolved deterministically by re-executing the seed free-running from the stalling step",
+   text="Mode D decides 'each goroutine gets exactly the results it would get alone / pools never mix data' deterministically at operation and pool-tenancy granularity (a worker is suspended while it holds or has just returned a pooled codec while others run through the same pool); mode R decides 'free of data races' with the race detector over seeded sets of overlapping operations. Every operation's result is compared with the same program run alone and with the reference model. Programs include runs with more workers than CPUs (24-64) and codec-heavy mixes; a goroutine that blocks on package-level state (semaphore, mutex) is reported only if it stays blocked after every goroutine the simulator held inside a library call has been let go (cross-caller deadlock), never merely because the cooperative scheduler held the releasing party.",
    note="Go gives no control over instruction-level interleaving: inside a parallel step of mode R the overlap is real and the verdict is the race detector's happens-before analysis; mode R replays are statistical (sync.Pool drops items randomly under -race), mode D replays are exact."),
  "C05": dict(engine="fault", cat="fault_enumeration", ref="§5.4, §6 C05",
    technique="deterministic simulation with fault injection: enumeration of truncations / substitutions / token edits / random bytes of documents parsed from guard-paged simulator memory; large cases under seeded pipeline schedules (deadlock = no runnable token)",
@@ -29,7 +29,7 @@ CLAIMED = {
    note="Trusted: synctest quiescence; reference parser for 'the stream's documents'; the 10 MiB chunk size is shipped as is (streams > 10 MiB only in the thorough tier)."),
  "C10": dict(engine="hist", cat="exploration", ref="§5.3, §6 C10",
    technique="deterministic simulation of operation histories (Set*/DeleteElems/SetNull) against a reference model; marshalled text judged by an independent reference parser and encoding/json",
-   text="Seeded histories of in-place edits; after every operation the tape is marshalled from the root and from restricted inner iterators (NextElement, AdvanceIter, FindKey, Elements, Array) and the text must be valid JSON, denote the model document (order, byte-equal strings, numbers equal as the property defines) and be a fixed point of parse+marshal; non-finite floats must yield an error.",
+   text="Seeded histories of in-place edits; after every operation the tape is marshalled from the root and from restricted inner iterators (NextElement, AdvanceIter, FindKey, Elements, Array), through MarshalJSON and through the ...Buffer variants with destinations that already hold bytes (output must be appended, earlier bytes intact), and the text must be valid JSON, denote the model document (order, byte-equal strings, numbers equal as the property defines) and be a fixed point of parse+marshal; non-finite floats must yield an error.",
    note="Documents holding a negative-zero float are excluded from the fixed-point clause only (C03+C18 force '-0' to re-parse as integer 0)."),
  "C11": dict(engine="hist", cat="exploration", ref="§5.3, §6 C11",
    technique="deterministic simulation of Serializer histories (mode switches, reused serializers and destinations, failed calls on damaged blobs) inside a synctest bubble where codec goroutines are scheduler tokens, against a reference model, plus cross-build recovery: blobs written by the asm build are deserialized by a noasm build in a fresh process",
@@ -37,11 +37,11 @@ CLAIMED = {
    note="String dedup depends on the process-random hash seed: blob bytes are never compared, only what they deserialize to."),
  "C13": dict(engine="hist", cat="exploration", ref="§5.3, §6 C13",
    technique="deterministic simulation of Set* histories (allowed and disallowed calls as fault operations) against a reference model with a full read-back battery after every step",
-   text="Seeded histories of 1-12 Set* calls at drawn positions (any depth, containers for SetNull), repeated replacement with other types and sizes, both string modes; after each operation eight independent read paths (flat walk, Advance, AdvanceIter/Object.Parse, ForEach, Interface, FindKey/FindPath/FindElement, MarshalJSON, serialize round trip) must expose the model in which exactly that position changed; disallowed calls must fail and change nothing.",
+   text="Seeded histories of 1-12 Set* calls at drawn positions (any depth, containers for SetNull), repeated replacement with other types and sizes, both string modes; after each operation eight independent read paths (flat walk, Advance with PeekNext/PeekNextTag and NextElement/NextElementBytes, AdvanceIter/Object.Parse, ForEach with and without key filters, Interface, FindKey/FindPath/FindElement, MarshalJSON, serialize round trip into a fresh or reused destination) and the typed accessors on every scalar (own type, documented conversions, documented errors) must expose the model in which exactly that position changed; disallowed calls must fail and change nothing.",
    note="Navigation to the edited position itself uses two independent API paths (flat AdvanceInto walk / user-style API descent)."),
  "C14": dict(engine="hist", cat="exploration", ref="§5.3, §6 C14",
    technique="deterministic simulation of deletion histories: every member subset for containers of <= 6 members (drawn mask), fn/onlyKeys/nil modes, followed by further deletions and replacements; callbacks and all listed read APIs compared with a reference model",
-   text="Seeded histories of Object/Array DeleteElems with drawn member subsets (mask over all subsets for small containers), with fn, onlyKeys, both or nil, nested containers, then further deletions and Set*; callbacks must visit each member once in order with its own key/value and afterwards every API the property lists must expose the model document.",
+   text="Seeded histories of Object/Array DeleteElems with drawn member subsets (mask over all subsets for small containers), with fn, onlyKeys, both or nil, nested containers, then further deletions and Set*; callbacks must visit each member once in order with its own key/value and afterwards every API the property lists (ForEach also with key filters, the serialize round trip also into a reused destination) must expose the model document; documents include nesting up to 2000 levels.",
    note="Key filters are only used on objects with unique keys (the property's own restriction)."),
  "C15": dict(engine="hist+pipe", cat="exploration", ref="§5.3, §6 C15",
    technique="deterministic simulation of call histories on reused ParsedJson/Serializer/destination objects, the whole history inside one synctest bubble under a seeded pipeline schedule; differential against the reference verdict/model of a fresh call",
@@ -58,7 +58,7 @@ CLAIMED = {
  "C19": dict(engine="fault", cat="fault_enumeration", ref="§5.4, §6 C19",
    technique="deterministic fault injection on stored bytes: exhaustive truncations / single-bit flips / byte substitutions of small blobs in all four modes, framing-aware tag/value/varint/block-type edits via an independent framing walker (decompress-mutate-recompress), synthetic tag streams, splices, random bytes, double faults; a call that does not return is judged as a bubble deadlock",
    text="Fault enumeration over serialized blobs: for every base blob one fault plan is run to completion (every truncation length, every single-bit flip, or a substitution alphabet at every offset for small blobs; framing-aware edits that keep the container intact; section splices of two blobs; random bytes; sampled double faults; synthetic tag streams whose float-with-flags entries carry raw tape words). Deserialize (fresh or stale reused destination, any reader mode) must return error or result without panic, and every traversal/marshal/bulk accessor on a result - including a model-free lookup walk (FindKey/FindPath/Elements.Lookup through reused destinations in every object) and ForEach+AdvanceIter to the end of each root - must terminate without panic. Replay files carry the literal blob and, for a reused destination, the blobs it received before.",
-   note="Blobs whose declared sizes (container varints, zstd frame content/window size) exceed 16 MiB are excluded by the independent framing walker, as the property allows, and counted."),
+   note="Blobs whose declared sizes (container varints, zstd frame content/window size) exceed 16 MiB are excluded by the independent framing walker, as the property allows, and counted. Replay files carry the literal mutated blob and, for a reused destination, that destination's exact content before the failing call. Complete traversals of accepted results are bounded per run (8 million tape words, then every eighth result); Deserialize itself is judged on every blob."),
 
  "C07": dict(engine="pipe", cat="exploration", ref="§5.1, §6 C07",
    technique="deterministic simulation: seeded cooperative scheduling of the stage-1 producer and stage-2 consumer at hand-off hooks (testing/synctest quiescence), ring monitors + reference model; a quarter of the workers run the -race build free-running at drawn GOMAXPROCS",
